@@ -26,6 +26,34 @@ import (
 	"go.opentelemetry.io/collector/internal/memorylimiter"
 )
 
+// ---- contexts of lifecycle calls ------------------------------------------------------------------------
+// A context given to Start/Shutdown is only valid for the call.  Every Start/Shutdown of the harness
+// gets, in rotation: context.Background(); a cancellable context cancelled right after the call
+// returned; a context whose deadline passes right after the call; a context that is already
+// cancelled.  The limiter must not tie the shared checker's life (or the effect of Shutdown) to it.
+var vCtxCounter atomic.Int64
+
+func vWithCtx(f func(context.Context) error) error {
+	switch vCtxCounter.Add(1) % 4 {
+	case 1:
+		ctx, cancel := context.WithCancel(context.Background())
+		e := f(ctx)
+		cancel()
+		return e
+	case 2:
+		ctx, cancel := context.WithTimeout(context.Background(), 200*time.Microsecond)
+		e := f(ctx)
+		<-ctx.Done()
+		cancel()
+		return e
+	case 3:
+		ctx, cancel := context.WithCancel(context.Background())
+		cancel()
+		return f(ctx)
+	}
+	return f(context.Background())
+}
+
 func vField(ml *memorylimiter.MemoryLimiter, name string) reflect.Value {
 	f := reflect.ValueOf(ml).Elem().FieldByName(name)
 	if !f.IsValid() {
@@ -186,10 +214,10 @@ func vExtLife(out *vOut) {
 					if users == 0 && everStopped {
 						restarts++
 					}
-					e = x.ext.Start(context.Background(), host)
+					e = vWithCtx(func(cx context.Context) error { return x.ext.Start(cx, host) })
 					users++
 				} else {
-					e = x.ext.Shutdown(context.Background())
+					e = vWithCtx(func(cx context.Context) error { return x.ext.Shutdown(cx) })
 					if (e != nil) != (users == 0) || (e != nil && !errors.Is(e, memorylimiter.ErrShutdownNotStarted)) {
 						out.Oracle("shutdown-error-iff-not-started", "ext", fmt.Sprintf("users=%d err=%v", users, e))
 					}
@@ -223,7 +251,7 @@ func vExtLife(out *vOut) {
 					out.Oracle("checker-dead-after-restart", term, fmt.Sprintf("users=%d restarts=%d checking=0", users, restarts))
 				}
 			}
-			for k := 0; k < 64 && x.ml.Shutdown(context.Background()) == nil; k++ {
+			for k := 0; k < 64 && vWithCtx(func(cx context.Context) error { return x.ml.Shutdown(cx) }) == nil; k++ {
 			}
 			x.stopTicker()
 			out.Case(users > 0 || everStopped, fmt.Sprintf("(CLife %s %s)", vList(ops), vList(obs)))
